@@ -50,7 +50,7 @@ CLAIMED = {
    note="'All succeed' is restated as: every write returns OK before a generous watchdog while the quorum is healthy (watchdog => inconclusive, error => violation).",
    technique="invariant monitors on hooks and on the replication streams under concurrent stress + race detector + component model check"),
  "C03": dict(engine="repl", level="exploration",
-   text="Seeded schedules on 3 or 5 real nodes (through the real ShardsDirector, harness-owned replication streams, the harness as coordinator): write bursts, stalled/delayed/cut links with re-delivery, restarts, wipes with snapshot install at several chunk sizes, leaders deposed with an unreplicated tail, elections with random majority fence sets. At every ack, in the follower's goroutine before the ack leaves, the follower's synced log is compared with the leader's at the newly acknowledged offsets; a re-delivered Truncate of the current term must not cut entries the follower acknowledged in that term; the first acknowledgement of a stream after a snapshot install must find the follower's log beginning no later than the offset after the snapshot; every database instance's applied offsets must be consecutive (the first apply of an instance against the commit offset it stored); at quiescence logs up to the commit offset and decoded DB dumps of replicas at the same commit offset must be identical. Runs under the race detector.",
+   text="Seeded schedules on 3 or 5 real nodes (through the real ShardsDirector, harness-owned replication streams, the harness as coordinator): write bursts, stalled/delayed/cut links with re-delivery, restarts, wipes with snapshot install at several chunk sizes, leaders deposed with an unreplicated tail, elections with random majority fence sets. At every ack, in the follower's goroutine before the ack leaves, the follower's synced log is compared with the leader's at the newly acknowledged offsets; a re-delivered Truncate of the current term must not cut entries the follower acknowledged in that term; a commit offset that advanced in the current term must be backed by a majority made of the leader and followers that sent an acknowledgement for it on a stream of that term, installed a snapshot reaching it, or were attached with a reported (or truncated-to) head reaching it; the first acknowledgement of a stream after a snapshot install must find the follower's log beginning no later than the offset after the snapshot; every database instance's applied offsets must be consecutive (the first apply of an instance against the commit offset it stored); at quiescence logs up to the commit offset and decoded DB dumps of replicas at the same commit offset must be identical. Runs under the race detector.",
    note="The leader's log is the reference for its own term; a wiped node does not count towards a fencing quorum until it has caught up ('a majority keeps its disk'); nodes that AddFollower refuses for good are given an empty disk by the harness (availability matter, see DESIGN.md). Known protocol-level findings are classified by the shape of the divergence so that other divergences are still reported.",
    technique="online invariant monitor at the ack hook + offline replica comparison at quiescence under fault injection + race detector"),
  "C04": dict(engine="repl", level="exploration",
@@ -66,7 +66,7 @@ CLAIMED = {
    note="The fold uses the same ProcessWrite; skipped, doubled or reordered application changes version ids and modification counts and shows in the dumps. Crash points inside Pebble's own flush are not enumerated (images whose two copies straddle a flush are discarded and counted).",
    technique="crash-point fault injection at hooks + recovery oracle (state == fold of the log)"),
  "C05": dict(engine="coord", level="fault_enumeration",
-   text="The real coordinator ShardController and StatusResource run over a harness-owned metadata store and coordination-RPC layer against 5 real storage nodes (real ShardsDirector, WAL, Pebble). Seeded schedules inject: coordinator death at chosen points (before/after the k-th metadata write; at the send or after the execution of the k-th NewTerm/BecomeLeader/AddFollower/DeleteShard) followed by a restart from the stored metadata, per-message loss (request or response) and delay, node process crashes (database back to its flushed image) and restarts, also between a node's NewTerm answer and BecomeLeader, leader-failure notifications (true and false), node swaps, and exact re-deliveries of earlier requests. Monitors run under the harness lock in record order and decide: durable-before-send, no term reuse across incarnations, one BecomeLeader target / one OK answer / one LEADER report / one stored leader per term, leader and followers are fenced members of the stored ensemble with the answered heads and the leader's head maximal, fenced majority of the ensemble, node terms never regress (answers, status polls, flushed crash image at the answer). A second part watches the real file metadata provider with concurrent observers for torn states.",
+   text="The real coordinator ShardController and StatusResource run over a harness-owned metadata store and coordination-RPC layer against 5 real storage nodes (real ShardsDirector, WAL, Pebble). Seeded schedules inject: coordinator death at chosen points (before/after the k-th metadata write; at the send or after the execution of the k-th NewTerm/BecomeLeader/AddFollower/DeleteShard) followed by a restart from the stored metadata, per-message loss (request or response) and delay, node process crashes (database back to its flushed image) and restarts, also between a node's NewTerm answer and BecomeLeader, leader-failure notifications (true and false), node swaps, a status loaded with its version before an election and swapped in after it (the config-change path), and exact re-deliveries of earlier requests. Monitors run under the harness lock in record order and decide: durable-before-send, stored term never decreases, no term reuse across incarnations, one BecomeLeader target / one OK answer / one LEADER report / one stored leader per term, leader and followers are fenced members of the stored ensemble with the answered heads and the leader's head maximal, fenced majority of the ensemble, node terms never regress (answers, status polls, flushed crash image at the answer). A second part watches the real file metadata provider with concurrent observers for torn states.",
    note="Crash points are sampled by (kind, ordinal) per schedule, not enumerated exhaustively per election; the 15-minute give-up of the status resource's retry loop (after which an election would proceed without a durable term) is out of reach of a bounded run and is described in DESIGN.md. Safety only: elections that never complete are counted, not judged.",
    technique="fault injection at coordinator crash points / message loss / node crashes + online trace monitors over recorded RPCs and metadata writes + race detector"),
  "C01": dict(engine="coord", level="exploration",
